@@ -5,6 +5,7 @@ import suite_q
 import suite_o
 import suite_k
 import suite_e
+import suite_json
 
 TRUSTED_BASE = [
     "Coq 8.16.1 kernel; vm_compute for Examples / refuted witnesses; no native_compute",
@@ -87,6 +88,19 @@ PROPS = {
               "must be equal. non-trivial = at least two features"),
         assumptions=["str.lower() is ASCII lowering on the generated names (ASCII only); hash collisions between different "
                      "hash keys are assumed not to occur (64-bit)"],
+    ),
+    "C05": dict(
+        props="Props/C05.v", tables=["core", "json"],
+        suites=[suite_json.run],
+        rule=("suites W-json / R-json: JSONWriter.transform() (returned text = file bytes, parsed back with json.loads) vs "
+              "the model's [json_write]; JSONReader on the file and JSONReader.parse_json on the loaded object vs "
+              "[json_read] as pointer-annotated models; inputs: random models of the JSON fragment (all relation kinds incl. "
+              "[a..*], arbitrary Unicode names, attribute values None/bool/int/float/str/list/map, logical constraints incl. "
+              "xor, duplicate formulas), hand-emitted documents (n-ary operand lists, legacy string flags, missing optional "
+              "keys) and one-defect malformed documents. oracle: structural identity of the model read back, 3 cycles, "
+              "byte-identical text. non-trivial = at least two features"),
+        assumptions=["json.loads(json.dumps(v)) = v for JSON-representable values (validated on every case)"],
+        trusted=["external: Python json module (dump/dumps/load/loads)"],
     ),
 }
 
